@@ -38,6 +38,7 @@ func init() {
 			{Name: "delete-only-last-key", File: "cmd/serf/command/agent/ipc.go", Func: "func (i *AgentIPC) handleTags(", Old: "delTag = (delTag || delkey == key)", New: "delTag = (delkey == key)", Expect: "R1"},
 			{Name: "old-tags-win", File: "cmd/serf/command/agent/ipc.go", Func: "func (i *AgentIPC) handleTags(", Old: "\ttags := make(map[string]string)\n\n", New: "\ttags := make(map[string]string)\n\tmaps.Copy(tags, req.Tags)\n\n", Expect: "R1"},
 			{Name: "edit-live-map", File: "cmd/serf/command/agent/ipc.go", Func: "func (i *AgentIPC) handleTags(", Old: "\ttags := make(map[string]string)\n", New: "\ttags := i.agent.SerfConfig().Tags\n", Expect: "R1"},
+			{Name: "empty-tags-not-persisted", File: "cmd/serf/command/agent/agent.go", Func: "func (a *Agent) writeTagsFile(", Old: "\tencoded, err := json.MarshalIndent(tags, \"\", \"  \")\n", New: "\tif len(tags) == 0 {\n\t\treturn nil\n\t}\n\tencoded, err := json.MarshalIndent(tags, \"\", \"  \")\n", Expect: "R3|writeTagsFile:nil-means-written"},
 			{Name: "loader-different-shape", File: "cmd/serf/command/agent/agent.go", Func: "func (a *Agent) writeTagsFile(", Old: "json.MarshalIndent(tags, \"\", \"  \")", New: "json.MarshalIndent(MarshalTags(tags), \"\", \"  \")", Expect: "R3"},
 		},
 	})
@@ -492,6 +493,25 @@ func runC30(c *an.Ctx) {
 			okP = an.Path(an.CallOf(call).Args[0]) == "$0.agentConf.TagsFile"
 		}
 		c.Add(okP, "R3", "writeTagsFile:target", wf, "the writer writes the configured tags file", "argument path")
+		// a nil result means the file was written: every nil return lies behind os.WriteFile == nil
+		// (an "empty map: nothing to persist" shortcut leaves the deleted tags in the file)
+		wcalls := an.CallsTo(wf, "os.WriteFile")
+		nNil := 0
+		for _, r := range an.Returns(wf) {
+			v := an.ResultValues(r)
+			if len(v) != 1 || !an.IsNilConst(an.Bound(v[0])) {
+				continue
+			}
+			nNil++
+			ok := false
+			for _, w := range wcalls {
+				if wv, isV := w.(ssa.Value); isV && an.GuardedBy(wf, r, an.Cmp{L: an.Path(wv), Op: "==", R: "c:nil"}) {
+					ok = true
+				}
+			}
+			c.Add(ok, "R3", "writeTagsFile:nil-means-written", r, "the writer returns nil only after os.WriteFile succeeded, for every tag map (the empty one included)", "edge dominance per nil return")
+		}
+		c.Floor("R3", "nil returns of writeTagsFile", nNil, 1)
 	}
 }
 
